@@ -279,6 +279,9 @@ class Conf:
             return self.ty(args[1], sch["values"], where + "{}")
         if ty == "i32" and sch.get("type") == "uint16" and where.endswith(("_update_mask[].offset", "_update_mask[].size")) and self.update_mask_values_fit():
             return
+        mnz = re.match(r"^std::num::(?:nonzero::)?NonZero<(\w+)>$", ty)
+        if mnz:
+            ty = mnz.group(1)  # serde writes a NonZero<T> as the plain number (that 0 is unrepresentable is the business of ir.lossless-cast)
         if ty in PRIM:
             if sch.get("type") != PRIM[ty]:
                 # wider JTD integer types that contain the Rust type are fine
@@ -493,6 +496,11 @@ def check_lossless(ctx, F):
                     continue
                 ctx.violate("ir.lossless-cast", f"{owner}|{x[2]}->{x[3]}|{H.short(x[4], maxlen=40)}",
                             f"{owner}: `{H.short(x[4], maxlen=60)} as {x[3]}` narrows / reinterprets a {x[2]} on its way into the IR: values outside {x[3]} (e.g. negative enumerator values) are written as a different number than the wowm text states", fn["file"], fn["line"])
+            # value-dropping constructors: NonZero::new(v) is None for v == 0, so a component that is literally 0 disappears from the IR
+            if H.tag(x) == "call" and re.search(r"NonZero<\w+>::new$|NonZero(U|I)\d+::new$|nonzero::NonZero::<\w+>::new$", H.call_path(x) or ""):
+                n += 1
+                ctx.violate("ir.lossless-cast", f"{owner}|nonzero|{H.short(x, maxlen=40)}",
+                            f"{owner}: `{H.short(x, maxlen=70)}` maps the value 0 to None on its way into the IR: a version component / number that is literally 0 is emitted as null, i.e. as if it had not been written", fn["file"], fn["line"])
     ctx.rule("ir.lossless-cast", n, floor=10, note=f"integer casts in ir_printer; {len(LOSSY_OK)} tabled lossy casts with reasons")
 
 
